@@ -526,10 +526,12 @@ def parse_events(ob):
         k = ob[i]
         if k == 1:
             n = ob[i + 7]
-            evs.append({"kind": 1, "t": ob[i + 1], "safe": ob[i + 2], "unsafe": ob[i + 3], "cancel": ob[i + 4]})
+            evs.append({"kind": 1, "t": ob[i + 1], "safe": ob[i + 2], "unsafe": ob[i + 3], "cancel": ob[i + 4],
+                        "depth": ob[i + 5], "proof": ob[i + 6]})
             i += 8 + n
         elif k == 2:
-            evs.append({"kind": 2, "t": ob[i + 1], "safe": ob[i + 2], "unsafe": ob[i + 3], "cancel": ob[i + 4]})
+            evs.append({"kind": 2, "t": ob[i + 1], "safe": ob[i + 2], "unsafe": ob[i + 3], "cancel": ob[i + 4],
+                        "depth": ob[i + 5], "proof": ob[i + 6]})
             i += 7
         elif k == 3:
             i += 3
@@ -601,6 +603,38 @@ def race_extra(tier, rng, workdir):
         elif [o for o in r[2:]] != [o for o in tw[3:]]:
             failures.append(race_rec(c, r, 1, 106, "after the block / tx-thread race the node differs from 'block, then tx message' "
                                      "(unconfirmed set / later notifications): %s instead of %s" % (r[2:], tw[3:])))
+    # the same tx message EARLIER in the block: ProcessBlock holds the tx repository (it is announcing the header) and has
+    # not reached the tx yet when the tx thread takes the tx message (enters it into the mempool, then waits for the
+    # repository).  Whichever thread delivers it, the tx is in a processed block: it must get a notification carrying
+    # this block's proof and depth 0 (C04), be delivered as new at most once (C03) and leave the unconfirmed set.
+    ecases, etwins = [], []
+    for txids, t, src in (([1], 1, 0), ([3, 1, 2], 1, 0), ([2, 3, 4], 4, 1), ([4, 2], 2, 0), ([3, 1, 2], 2, 1)):
+        tail = [["unconf"], ["tx", t, 0], ["unconf"], ["block", 2, 1, [], 1], ["delaycheck"], ["unconf"]]
+        ecases.append({"cfg": bcfg, "ops": [["setinsync", 1], ["race_block_conflict", 1, 0, txids, t, src]] + tail})
+        etwins.append({"cfg": bcfg, "ops": [["setinsync", 1], ["block", 1, 0, txids, 1], ["tx", t, src]] + tail})
+    eres, _ = vlib.run_harness("txflow", ecases + etwins, workdir, tag="earlyrace", timeout=300)
+    ereached = 0
+    for c, r, tw in zip(ecases, eres[:len(ecases)], eres[len(ecases):]):
+        ob = r[1]
+        t = c["ops"][1][4]
+        ereached += ob[1] if len(ob) > 1 else 0
+        if ob[0] != 0 or (len(ob) > 2 and ob[2] == 2) or (len(ob) > 3 and (ob[2] != 0 or ob[3] != 0)):
+            failures.append(race_rec(c, r, 1, 105, "block / tx-thread race: an operation failed or got stuck (%s)" % ob[:4]))
+            continue
+        evs = [e for e in parse_events(ob[4:]) if e["t"] == t]
+        later = [e for op, o in zip(c["ops"][2:], r[2:]) if op[0] in ("tx", "block", "delaycheck") and o and o[0] == 0
+                 for e in parse_events(o[1:]) if e["t"] == t]
+        news = [e for e in evs + later if e["kind"] == 1]
+        if len(news) > 1:
+            failures.append(race_rec(c, r, 1, 104, "tx %d of the block was delivered as new %d times: the tx thread took its tx "
+                                     "message while ProcessBlock held the tx repository" % (t, len(news))))
+        elif not any(e["depth"] == 0 and e["proof"] == c["ops"][1][1] for e in evs):
+            failures.append(race_rec(c, r, 1, 108, "tx %d is in the processed block but no notification carries the block's merkle "
+                                     "proof (it was in the mempool, not yet in the unconfirmed set, when ProcessBlock reached "
+                                     "it: skipped as 'seen, not relevant'; then delivered as unconfirmed): %s" % (t, evs)))
+        elif [o for o in r[2:]] != [o for o in tw[3:]]:
+            failures.append(race_rec(c, r, 1, 106, "after the block / tx-thread race the node differs from 'block, then tx message' "
+                                     "(unconfirmed set / later notifications): %s instead of %s" % (r[2:], tw[3:])))
     # a double spend of a delivered tx handled by the tx thread while the block that confirms that tx is inside
     # ProcessBlock (announcement being sent, tx repository locked): both threads must finish (lock order), the loser
     # is reported unsafe / cancelled, the confirmed one is never reported safe after unsafe
@@ -635,12 +669,13 @@ def race_extra(tier, rng, workdir):
                     bad = (103, "tx %d reported safe after it was reported unsafe" % e["t"])
         if bad:
             failures.append(race_rec(c, r, 2, bad[0], "block / conflicting tx race: " + bad[1]))
-    return {"failures": failures, "evaluations": len(cases) + len(bcases) + len(ccases),
+    return {"failures": failures, "evaluations": len(cases) + len(bcases) + len(ecases) + len(ccases),
             "coverage": {"reannounced_with_orphaned_proof_not_judged": stale_coverage(),
                          "rmw_race_scenarios": len(cases), "rmw_race_pause_point_reached": reached["race_delay"],
                          "send_race_pause_point_reached": reached["race_send"],
                          "read_race_pause_point_reached": reached["race_read"],
                          "block_tx_race_scenarios": len(bcases), "block_tx_race_pause_point_reached": breached,
+                         "early_block_tx_race_scenarios": len(ecases), "early_block_tx_race_pause_point_reached": ereached,
                          "block_conflict_race_scenarios": len(ccases), "block_conflict_race_pause_point_reached": creached}}
 
 
